@@ -4,9 +4,10 @@ EXTENDS Enthalpy, Json, IOUtils
 
 Q == JsonDeserialize(IOEnv.X_IN)
 FlatIso == LET f == IsoScenarios IN SetToSeq({f[x] : x \in DOMAIN f})
+FlatBranch == LET f == BranchScenarios IN SetToSeq({f[x] : x \in DOMAIN f})
 FlatPoint == LET f == PointScenarios IN SetToSeq({f[x] : x \in DOMAIN f})
 Step(q) ==
-  CASE q.k = "scen" -> [iso |-> FlatIso, point |-> FlatPoint, whit_storage |-> WhitStorage, whit_model_units |-> WhitModelUnits]
+  CASE q.k = "scen" -> [iso |-> FlatIso, point |-> FlatPoint, branch |-> FlatBranch, whit_storage |-> WhitStorage, whit_model_units |-> WhitModelUnits]
     [] q.k = "iso" -> IsoJudge(q)
     [] q.k = "whit" -> WhitJudge(q)
     [] q.k = "point" -> PointJudge(q)
